@@ -402,6 +402,9 @@ static void c04_c02_case(const TypeCtx& c, uint64_t ci, bool is_c02) {
       if (!r_ok(rk, dc.t->flags)) continue;
       if (k >= 5 && (mi % 8) != (size_t)(k - 5) && !args().replay()) continue;   // stream/fd-backed bounded readers: an eighth of the inputs each
       size_t bound = r_is_bounded(rk) ? m.bytes.size() : SIZE_MAX;
+      // (cuts of valid encodings carry no hostile lengths: for them the stream / fd backed bounded readers also get a limit beyond the data, so the wrapped
+      //  reader runs dry inside a run - "terminates and returns an error status")
+      if (is_c02 && k >= 5 && m.kind == MutKind::Cut && (mi & 8)) { bound = m.bytes.size() + 16; rep().count("c02_bounded_over_unbounded_readers_running_dry"); }
       set_current("%s", case_desc(c.t->name, (int64_t)ci, stage, J().s("reader", rname(rk)).s("mutation", m.desc).s("bytes", hex(m.bytes, 200)).str()).c_str());
       uint64_t cap = is_c02 ? 65536 + 1024 * (uint64_t)m.bytes.size() + 64 * dc.t->sizeof_t : 0;
       Obj dst(dc.t);
@@ -451,6 +454,38 @@ static void c04_c02_case(const TypeCtx& c, uint64_t ci, bool is_c02) {
     if (rep().want_sample(fmt("%s-%d", dc.t->name, (int)m.kind), 1) && rep().samples.size() < 16 && ci == 0)
       rep().sample(fmt("%s-%d", dc.t->name, (int)m.kind), J().s("type", dc.t->name).s("mutation", m.desc).s("bytes", hex(m.bytes, 40)).s("reference", ref_ok ? "accept" : catname(rr.cat)).str(), 1);
   }
+  }
+  clear_current();
+}
+
+// ---- C04 on well-formed input: the valid encoding of a generated value must be accepted, with that value and that length, by every reader kind
+// incl. the unbounded ones (stream over stringstream / chunked non-seekable streambuf, fd over memfd and pipe) - and its strict prefixes rejected.
+// This is also the only C04 traffic for types that are kept away from hostile bytes (bool / loose-enum BIN elements): their valid encodings are safe.
+static void c04_valid_case(const TypeCtx& c, uint64_t ci) {
+  if (c.t->flags & (F_UNBOUNDED | F_AMBIGUOUS | F_HANDLE)) return;
+  Viol viol{c, (int64_t)ci, "valid"};
+  const bool big = (ci % 8 == 5) && (c.sch.k == K::STR || c.sch.k == K::BIN) && c.sch.len == Len::VAR;
+  Val v = gen_value(c, ci, 100, false, big); Obj o(c.t); o.set(v); Val v0 = canoned(c.sch, o.val());
+  Enc e; RefEncode(c.sch, o.val(), e);
+  set_current("%s", case_desc(c.t->name, (int64_t)ci, "valid", J().s("bytes", hex(e.out, 160)).str()).c_str());
+  rep().note(hash_combine(hash_combine(hash_str(c.t->name), hash_bytes(e.out.data(), e.out.size())), 0xa11d), e.out.size() >= 2);
+  for (int rk = 0; rk < R_COUNT; rk++) {
+    if (!r_ok(rk, c.t->flags)) continue;
+    for (int used = 0; used < 2; used++) {
+      Source src; src.init(rk, e.out.data(), e.out.size(), r_is_bounded(rk) ? e.out.size() : SIZE_MAX, 1 + (unsigned)((ci + (uint64_t)rk) % 6), (ci & 1) != 0);
+      Obj dst(c.t); if (used) dst.set(gen_value(c, ci, 800));
+      auto st = c.t->read(src, dst.p);
+      rep().count("c04_valid_encodings_on_every_reader"); rep().count(std::string("c04_valid_reader_") + rname(rk));
+      std::string det = J().s("reader", rname(rk)).s("bytes", hex(e.out, 160)).b("used_destination", used != 0).str();
+      if (!st) { viol(fmt("C04:rejects-valid:%s:%s:%s", errname(st.error()), rname(rk), tkey(c).c_str()), fmt("%s rejected ('%s') the encoding docs/format.md prescribes for this value (%zu bytes)", rname(rk), errname(st.error()), e.out.size()), det); break; }
+      if (src.consumed() != e.out.size()) { viol(fmt("C04:consumed-differs:%s:%s", rname(rk), tkey(c).c_str()), fmt("%s consumed %zu of the %zu bytes of the encoding", rname(rk), src.consumed(), e.out.size()), det); break; }
+      if (canoned(c.sch, dst.val()) != v0) { viol(fmt("C04:value-differs:%s", tkey(c).c_str()), fmt("%s decoded %s, the bytes denote %s", rname(rk), vjson(canoned(c.sch, dst.val())).c_str(), vjson(v0).c_str()), det); break; }
+    }
+  }
+  if ((c.t->flags & F_NOHOSTILE) && e.out.size() <= 200) for (size_t k = 0; k < e.out.size(); k++) for (int rk : {R_PEDANTIC, R_BUFFER, R_B_PEDANTIC}) {
+    Source src; src.init(rk, e.out.data(), k, r_is_bounded(rk) ? k : SIZE_MAX); Obj dst(c.t); auto st = c.t->read(src, dst.p); rep().count("c04_single_defect_categories_compared");
+    if (st) viol(fmt("C04:accepts-invalid:Truncated:cut:%s", tkey(c).c_str()), fmt("%s accepted the first %zu of %zu bytes", rname(rk), k, e.out.size()));
+    else if (st.error() != nop::ErrorStatus::ReadLimitReached) viol(fmt("C04:category:%s-for-Truncated:%s", errname(st.error()), tkey(c).c_str()), fmt("%s returned '%s' for a truncated encoding", rname(rk), errname(st.error())));
   }
   clear_current();
 }
@@ -830,6 +865,7 @@ int vf::engine_main() {
   uint64_t types_run = 0;
   for (auto& c : g_types) {
     uint32_t fl = c.t->flags;
+    if (P == "C04" && (a.only_stage.empty() || a.only_stage == "valid")) for (int ci = 0; ci < std::max(2, ncases / 2); ci++) { if (!a.replay() && !mine(c.idx * 7 + (uint64_t)ci)) continue; if (a.only_case >= 0 && a.only_case != ci) continue; if (!a.only_type.empty() && a.only_type != c.t->name) continue; c04_valid_case(c, (uint64_t)ci); }
     if ((P == "C02" || P == "C04") && (fl & (F_NOHOSTILE | F_UNBOUNDED))) continue;
     if (!a.only_type.empty() && a.only_type != c.t->name) continue;
     int n = (fl & F_BIG) ? std::max(2, ncases / 8) : ncases;
